@@ -6,6 +6,8 @@ import (
 	"go/types"
 	"reflect"
 	"strings"
+
+	"golang.org/x/tools/go/ssa"
 )
 
 // S2Result is the outcome of running an emitted unmarshal method on a symbolic document.
@@ -107,7 +109,7 @@ func init() {
 		if tm == nil {
 			return false
 		}
-		return fr.i.prog.LookupMethod(types.NewPointer(tm.Type()), s.TPkg, a[2].(string)) != nil
+		return fr.i.prog.MethodSets.MethodSet(types.NewPointer(tm.Type())).Lookup(s.TPkg, a[2].(string)) != nil
 	})
 	reg("NewDoc", func(fr *frame, a []value) value {
 		n := fr.i.x.newDoc()
@@ -124,11 +126,15 @@ func init() {
 			panic(unsupported("emitted package has no type " + a[1].(string)))
 		}
 		T := tm.Type()
+		fr.i.initStage2(fr, s)
 		method := "UnmarshalJSON"
 		if a[2].(string) == "yaml" {
 			method = "UnmarshalYAML"
 		}
-		fn := fr.i.prog.LookupMethod(types.NewPointer(T), s.TPkg, method)
+		var fn *ssa.Function
+		if sel := fr.i.prog.MethodSets.MethodSet(types.NewPointer(T)).Lookup(s.TPkg, method); sel != nil {
+			fn = fr.i.prog.MethodValue(sel)
+		}
 		doc := x.docs[a[3].(int)]
 		res := &S2Result{RecvType: T}
 		var cell value = fr.i.priorValue(T)
@@ -582,4 +588,17 @@ func (i *interpreter) mapstructureValue(el *docNode, t types.Type) (value, value
 		return fail()
 	}
 	panic(unsupported("mapstructure element type " + typeString(t)))
+}
+
+// initStage2 runs the package initialiser of an emitted package once per path (its
+// package-level variables, e.g. the enumValues_ tables, are interpreter state).
+func (i *interpreter) initStage2(fr *frame, s *Stage2) {
+	key := "s2init:" + s.Path
+	if i.x.declared[key] {
+		return
+	}
+	i.x.declared[key] = true
+	if f := s.Pkg.Func("init"); f != nil {
+		call(i, fr, token.NoPos, f, nil)
+	}
 }
